@@ -4,8 +4,17 @@ From Coq Require Import List NArith ZArith Bool Arith.
 From VF Require Import Base.Sx PyVal.Val PyVal.Codec Merge.Merge Yaml.Target.
 Import ListNotations.
 
-(* "h" followed by the lower-case hex digits of the text: injective, free of "|" and "+" *)
-Definition model_H (s : str) : str := 104%N :: flat_map print_byte s.
+(* the executable stand-in for version_for_str: "h" followed by a prefix-free binary code of every
+   character (bits of the code point, least significant first, "." for the leading one, "z" for 0):
+   injective, never empty, free of "|" and "+" - the hypotheses of the C12 theorems (ExecProofs.v) *)
+Fixpoint enc_pos (p : positive) : str :=
+  match p with
+  | xH => [46%N]
+  | xO q => 48%N :: enc_pos q
+  | xI q => 49%N :: enc_pos q
+  end.
+Definition enc_N (n : N) : str := match n with N0 => [122%N] | Npos p => enc_pos p end.
+Definition model_H (s : str) : str := 104%N :: flat_map enc_N s.
 
 Definition table_get {A} (tbl : list (str * A)) (s : str) : option A :=
   match find (fun p => str_eqb s (fst p)) tbl with Some p => Some (snd p) | None => None end.
@@ -69,7 +78,7 @@ Definition variants_of_sx (x : sx) : option variants :=
 Definition run_compile (V : variants) (C : config) (o : oracles) (t : fstree) (pv : str) (oc : item)
   : res (dict * str * option item) :=
   compile V C model_H (table_fun (o_render o)) (table_fun (o_yload o)) (table_fun (o_match o)) t pv oc.
-Definition run_spec (C : config) (o : oracles) (t : fstree) : res dict :=
-  get_data_spec C (table_fun (o_render o)) (table_fun (o_yload o)) (table_fun (o_match o)) t.
-Definition run_empty_case (C : config) (o : oracles) (t : fstree) : bool :=
-  empty_pieces_case C (table_fun (o_render o)) (table_fun (o_yload o)) (table_fun (o_match o)) t.
+Definition run_spec (V : variants) (C : config) (o : oracles) (t : fstree) : res dict :=
+  get_data_spec V C model_H (table_fun (o_render o)) (table_fun (o_yload o)) (table_fun (o_match o)) t.
+Definition run_empty_case (V : variants) (C : config) (o : oracles) (t : fstree) : bool :=
+  empty_pieces_case V C model_H (table_fun (o_render o)) (table_fun (o_yload o)) (table_fun (o_match o)) t.
